@@ -1455,7 +1455,7 @@ func main() {
 		return
 	}
 	corpus(c)
-	n := c.Scale(220, 9000)
+	n := c.Scale(220, 6000)
 	for i := 0; i < n; i++ {
 		r := c.Rng
 		switch r.Intn(10) {
